@@ -1,28 +1,34 @@
 import PoxModel.Model.Addr
-/-! C16: RFC 4291 §2.2 text representation of IPv6 addresses, transcribed as a checker that shares nothing with the
-parser of the model except `splitOn` and the canonical dotted-quad recogniser (`inetAton`).  Used only to *state*
-"malformed input is rejected" (`ip6_rejects_full`) and its counterexamples.  Core only.
+/-! C16: RFC 4291 §2.2 text representation of IPv6 addresses, transcribed as a *denotation*: `denote6 s` is the 16 bytes
+the text `s` stands for, `none` when `s` is not an address text.  It shares nothing with the parser of the model except
+`splitOn`, the canonical dotted-quad recogniser (`inetAton`, itself a specification: libc is outside POX) and the
+big-endian 16-bit split `groupBytes`.  Core only.
 
-Forms: (1) `x:x:x:x:x:x:x:x`, each `x` one to four hex digits; (2) one `::` standing for one or more zero groups;
-(3) the last 32 bits may be written `d.d.d.d`. -/
+Forms: (1) `x:x:x:x:x:x:x:x`, each `x` one to four hex digits (either case, leading zeros allowed); (2) one `::` standing
+for one or more zero groups, anywhere including the ends; (3) the last 32 bits may be written `d.d.d.d`. -/
 namespace Pox.Addr
 
 def isHexGroup (s : Str) : Bool := decide (1 ≤ s.length) && decide (s.length ≤ 4) && s.all fun c => decide (digitVal c < 16)
 
-def isQuad (s : Str) : Bool :=
-  match inetAton s with
-  | .ok _ => true
-  | .error _ => false
+/-- value of a hex field -/
+def groupVal (s : Str) : Nat := s.foldl (fun a c => a * 16 + digitVal c) 0
 
-/-- number of 16-bit groups a list of colon-separated fields denotes; with `v4` the last one may be a dotted quad -/
-def groupsOf : List Str → Bool → Option Nat
-  | [], _ => some 0
+/-- the two 16-bit groups a canonical dotted quad denotes -/
+def quadGroups (s : Str) : Option (List Nat) :=
+  match inetAton s with
+  | .ok [a, b, c, d] => some [a.toNat * 256 + b.toNat, c.toNat * 256 + d.toNat]
+  | _ => none
+
+/-- the 16-bit groups a list of colon-separated fields denotes; with `v4` the last field may be a dotted quad -/
+def fieldVals : List Str → Bool → Option (List Nat)
+  | [], _ => some []
   | p :: ps, v4 =>
     match ps with
-    | [] => if isHexGroup p then some 1 else if v4 && isQuad p then some 2 else none
-    | _ :: _ => if isHexGroup p then (groupsOf ps v4).map (· + 1) else none
+    | [] => if isHexGroup p then some [groupVal p] else if v4 then quadGroups p else none
+    | _ :: _ => if isHexGroup p then (fieldVals ps v4).map (groupVal p :: ·) else none
 
-def countGroups (s : Str) (v4 : Bool) : Option Nat := if s.isEmpty then some 0 else groupsOf (splitOn ':' s) v4
+/-- groups of one side of `::` (or of the whole text): the empty text denotes no group -/
+def listVals (s : Str) (v4 : Bool) : Option (List Nat) := if s.isEmpty then some [] else fieldVals (splitOn ':' s) v4
 
 /-- split at the first `::` -/
 def splitDC : Str → Option (Str × Str)
@@ -32,13 +38,29 @@ def splitDC : Str → Option (Str × Str)
     | [] => none
     | b :: r => if a = ':' ∧ b = ':' then some ([], r) else (splitDC t).map fun p => (a :: p.1, p.2)
 
-def rfc4291 (s : Str) : Bool :=
+/-- the address a text denotes -/
+def denote6 (s : Str) : Option Bytes :=
   match splitDC s with
-  | none => countGroups s true == some 8
+  | none =>
+    match listVals s true with
+    | some gs => if gs.length = 8 then some (groupBytes gs) else none
+    | none => none
   | some (l, r) =>
-    (splitDC r).isNone && !(r.head? == some ':') &&
-    match countGroups l false, countGroups r true with
-    | some a, some b => decide (a + b ≤ 7)
+    match listVals l false, listVals r true with
+    | some a, some b =>
+      if a.length + b.length ≤ 7 then some (groupBytes (a ++ List.replicate (8 - a.length - b.length) 0 ++ b)) else none
+    | _, _ => none
+
+def rfc4291 (s : Str) : Bool := (denote6 s).isSome
+
+/-- the valid texts `IPAddr6` refuses (its `len(segs) > 8` test): `::` at the very start or the very end standing for a
+    single group, i.e. seven explicit groups (a dotted quad counts for two) -/
+def unsupported6 (s : Str) : Bool :=
+  match splitDC s with
+  | none => false
+  | some (l, r) =>
+    match listVals l false, listVals r true with
+    | some a, some b => (l.isEmpty || r.isEmpty) && a.length + b.length == 7
     | _, _ => false
 
 end Pox.Addr
